@@ -708,6 +708,18 @@ func (t *Table) validateIndexKeys(item map[string]*types.Item) error {
 		if _, err := index.keySchema.GetKey(t.AttributesDef, item); err != nil {
 			return types.NewError("ValidationException", err.Error(), nil)
 		}
+
+		// an item that lacks one key attribute of the index is not indexed, but the key attribute
+		// it does have still has to be of the declared type
+		for _, field := range []string{index.keySchema.HashKey, index.keySchema.RangeKey} {
+			if _, present := item[field]; !present || field == "" {
+				continue
+			}
+
+			if _, err := getItemValue(item, field, t.AttributesDef[field]); err != nil {
+				return types.NewError("ValidationException", err.Error(), nil)
+			}
+		}
 	}
 
 	return nil
